@@ -36,7 +36,7 @@ claim("C08", "exploration",
       "All sequences of length 2-3 over 14 lifecycle templates (destroy, recreate, create+destroy in one tx, write, balance/code/slot probes, EIP-161 touch, inner-frame revert around a destroy, CREATE deployment) on an address with pre-existing storage and fresh addresses, on Homestead..Osaka rule sets; the probes store what they observed so the observations are part of the compared bundle. The sharpest reader-races-destroyer blocks get coarse bound 2-3 and fine bound 1-2.",
       "DESIGN.md §4 C08", SCHED_NOTE)
 claim("C09", "exploration",
-      "bounded exhaustive enumeration of deployment / EIP-7702 authorisation sequences x deviation-bounded schedule DFS, oracle = in-order stock revm",
+      "bounded exhaustive enumeration of deployment (create transaction, CREATE, CREATE2; fresh and pre-existing targets; Frontier..Prague) / EIP-7702 authorisation (valid and invalid tuples) sequences x deviation-bounded schedule DFS, oracle = in-order stock revm",
       "All sequences of length 2-3 over 16 templates (7702 set, re-point, clear, wrong nonce, two authorities, repeated authority, self-authorisation, calls into and probes of the delegated account, transactions sent from it, CREATE2 deployment plus calls/probes of the created contract) with authorisation nonces tracked per block; Code and Basic are versioned separately in grevm, so re-point/clear-then-call drivers are also explored at fine granularity.",
       "DESIGN.md §4 C09", SCHED_NOTE)
 claim("C11", "exploration",
@@ -48,7 +48,7 @@ claim("C14", "exploration",
       "Two or three tasks call execute / parallel_execute / fallback_sequential on one shared scheduler (empty and state-changing blocks, parallel and forced-sequential configuration) under every schedule within fine bound 2-3 / coarse bound 3-4, which includes all successive orders: exactly one call wins, all others get the once-only error, and outcomes/bundle equal one in-order application. take_result_and_state before any execution is checked to be empty and untouched.",
       "DESIGN.md §4 C14", SCHED_NOTE)
 claim("C15", "exploration",
-      "loom: exhaustive interleavings x C11-permitted stale reads of the source-included production cursor/frontier/timestamp code",
+      "loom: exhaustive interleavings x C11-permitted stale reads of the source-included production cursor/frontier/timestamp code, plus sequential bounded-exhaustive enumeration of completion orders on index ranges around machine-word sizes",
       "RewindableCursor (1-2 claimers + 1-2 rewinders, every start/target), the first-unexecuted frontier through SchedulerContext (every split/order of 3 completions over 2-3 publishers plus a sampling reader; visibility probed with Relaxed flags) and the validation/rewind/finality timestamp protocol are explored by loom on the production functions (no re-implementation): no claim at or beyond the limit, every rewound index offered again, the frontier never passes an invisible execution and always catches up, a validation predating a covering rewind never yields finality.",
       "DESIGN.md §4 C15", LOOM_NOTE)
 claim("C16", "exploration",
@@ -65,11 +65,11 @@ claim("C06", "exploration",
       "For every block (general alphabet, the C12 call shapes, the C13 reserve blocks) and each of the four delegated-account policy combinations, every member of {1..3 workers} x {min_parallel_txs 0, n, n+1} x {execute, parallel_execute(Some(k)), fallback_sequential} must produce the observation (outcomes, bundle, Ok/Err, failing index) of the forced-sequential run of the same block and policy; policy-off members must also equal stock revm. This is the only oracle available for policy-enabled execution, for which stock revm is no reference.",
       "DESIGN.md §4 C06", SCHED_NOTE)
 claim("C12", "exploration",
-      "bounded exhaustive enumeration of call shapes x specs x guard on/off x designator present/absent, plus a 256-opcode sweep, oracle = stock revm (resp. stock revm with the delegate target's create opcode undefined)",
-      "14 programs reaching CREATE/CREATE2 (top-level create, ordinary contract, nested call, delegatecall, staticcall, delegated EOA top-level and nested, delegated EOA calling an ordinary factory, ordinary contract delegatecalling the delegate's code, delegated create followed by the account's own transaction, in-block delegation) on six rule sets, guard on and off, designators present and absent, sequential and parallel path. Where no create runs in a delegated context the result must be bit-identical to stock revm; otherwise identical to stock revm on the same program with the delegate target's create opcode replaced by an undefined opcode, modulo the halt reason. The opcode sweep executes every opcode byte after a fixed stack priming with the guard on against stock revm (result, gas, output).",
+      "bounded exhaustive enumeration of call shapes x specs x guard on/off x designator present/absent, plus a 256-opcode sweep x stack priming (zeros / empty / huge operands) x gas limit (30 000 / 200 000 / reservoir) and fixed-gas relays (5 000..250 000 gas forwarded to a factory and to a delegated account), oracle = stock revm (resp. stock revm with the delegate target's create opcode undefined)",
+      "19 programs reaching CREATE/CREATE2 (top-level create, ordinary contract, nested call, delegatecall, staticcall, delegated EOA top-level and nested, delegated EOA calling an ordinary factory, ordinary contract delegatecalling the delegate's code, delegated create followed by the account's own transaction, in-block delegation) on seven rule sets (Byzantium..Amsterdam), guard on and off, designators present and absent, sequential and parallel path. Where no create runs in a delegated context the result must be bit-identical to stock revm; otherwise identical to stock revm on the same program with the delegate target's create opcode replaced by an undefined opcode, modulo the halt reason. The opcode sweep executes every opcode byte after a fixed stack priming with the guard on against stock revm (result, gas, output).",
       "DESIGN.md §4 C12", SCHED_NOTE)
 claim("C13", "exploration",
-      "bounded exhaustive enumeration of reserve blocks (debit kind x variant x boundary balance x number of later own transactions) x policy x paths x deviation-bounded schedule DFS, oracle = independent evaluation of the rule + stock revm + forced-sequential relation",
+      "bounded exhaustive enumeration of reserve blocks (debit kind x variant {plain, inner revert, credit before, authorisation in the transaction, funded by an earlier transaction, refunded, reached through an ordinary contract, two debits, create transaction} x boundary balance x number of later own transactions) x policy x paths x deviation-bounded schedule DFS, oracle = independent evaluation of the rule + stock revm + forced-sequential relation",
       "The rule (violation iff a surviving net debit leaves the delegated account below min(balance before the first debit, saturating sum of the maximum costs of its later own transactions)) is evaluated independently from the block parameters. No violation or policy off: the observation must equal stock revm. Violation: a charged top-level Revert with empty output and the gas the execution spent, no state but nonce/fee/authorisation effects, the account keeps its balance, its later transactions all execute, and the observation equals the forced-sequential run. Includes exact / exact-1 boundary balances, inner reverts, credits before the debit, refunded debits, authorisation in the debiting transaction and a balance that only an earlier in-block transfer provides (stale speculative read).",
       "DESIGN.md §4 C13", SCHED_NOTE)
 
